@@ -642,6 +642,34 @@ func (s *appState) genesisOp(d *driver, f []string) (out string) {
 		defer env2.Close()
 		s2 := &appState{env: env2, denomByHash: map[string]string{}, escrowSym: map[string]string{}}
 		return "res=ok st=" + s2.stateStr(env2.Ctx)
+	case "genload":
+		// wipe the module store and initialise it, in place, from the given genesis (a chain started from that genesis)
+		g, ok := parseCanonGenesis(f[1])
+		if !ok {
+			return "bad-op"
+		}
+		bz, err := cdc.MarshalJSON(g)
+		if err != nil {
+			return "bad-op"
+		}
+		if err := mod.ValidateGenesis(cdc, nil, bz); err != nil {
+			return "res=err"
+		}
+		ctx := s.env.Ctx
+		cacheCtx, write := ctx.CacheContext()
+		store := cacheCtx.KVStore(s.env.App.GetKey(core.ModuleName))
+		var keys [][]byte
+		it := store.Iterator(nil, nil)
+		for ; it.Valid(); it.Next() {
+			keys = append(keys, append([]byte{}, it.Key()...))
+		}
+		it.Close()
+		for _, k := range keys {
+			store.Delete(k)
+		}
+		mod.InitGenesis(cacheCtx, cdc, bz)
+		write()
+		return "res=ok st=" + s.stateStr(ctx)
 	case "reimport":
 		// export -> validate -> wipe the module store -> init -> export, in place, through the AppModule
 		ctx := s.env.Ctx
